@@ -184,6 +184,11 @@ def eval_suite(ctx, name, lines, res, mode='eval'):
                 if fv: res.stats['flag_' + fk] += 1
         res.stats['rfc_' + str(m.get('rfc'))] += 1
         res.stats['real_' + status_of(r)] += 1
+        if ctx.prop == 'C03' and 'spec' in m and 'ok' in m['spec']:
+            # the Python rendering of RFC 2.7 used to judge real results must agree with the Lean `Spec.npath`
+            for e in m['spec']['ok']:
+                if npath_py(e['l']) != ''.join(map(chr, e['p'])): raise SystemExit('internal error: npath_py disagrees with Spec.npath on ' + json.dumps(e))
+                res.stats['npath_py_checked_against_Spec'] += 1
         if j['nontrivial']:
             res.nontrivial.add(chash([c.get('q', c.get('ast')), c.get('doc')])); info['nonempty'] += 1
         if j['corr']:
